@@ -1,3 +1,4 @@
+import _pickle
 import pickle
 
 import fickling.hook as hook
@@ -19,7 +20,14 @@ class FicklingContextManager:
         return self
 
     def __exit__(self, exc_type, exc_val, exc_tb):
-        pickle.load = self.original_pickle_load
+        if pickle.load is not loader.load:
+            # a global (de)activation replaced our hook while the context was open: not ours to undo
+            return
+        if _pickle.load is not hook._original_pickle_load:
+            # the safe ML environment is active: its loader has to cover pickle.load as well
+            pickle.load = _pickle.load
+        else:
+            pickle.load = self.original_pickle_load
 
 
 def check_safety():
